@@ -5,6 +5,7 @@
     bindings.  Proved for every function of the evaluator by mutual induction on the AST. *)
 From Coq Require Import List NArith Bool Lia.
 From XmlRs Require Import Base.CPred Base.NList Base.Float64.
+From XmlRs Require Import Spec.XPathCore Model.XPathFuncs.
 From XmlRs Require Import Model.XPathAst Model.XDoc Model.XPathScalar Model.XPathEval.
 From XmlRs Require Import Proofs.XPathEvalEqs.
 Import ListNotations.
